@@ -32,13 +32,15 @@ theorem classify_queued (cfg : Cfg) (c : Conn) (f : Frame) (h : classify cfg c f
     · split at h
       · cases h
       · split at h
-        · rename_i hs
-          split at h
-          · rename_i ho; exact ⟨by simpa using hs, by simpa using ho⟩
-          · cases h
+        · cases h
         · split at h
-          · split at h <;> cases h
-          · cases h
+          · rename_i hs
+            split at h
+            · rename_i ho; exact ⟨by simpa using hs, by simpa using ho⟩
+            · cases h
+          · split at h
+            · split at h <;> cases h
+            · cases h
 
 theorem classify_reached (cfg : Cfg) (c : Conn) (f : Frame) (h : (classify cfg c f).reachedService = true) :
     c.auth = true ∧ c.closed = false ∧ f.svc ≠ 0 := by
@@ -50,15 +52,17 @@ theorem classify_reached (cfg : Cfg) (c : Conn) (f : Frame) (h : (classify cfg c
     · cases h
     · split at h
       · cases h
-      · rename_i hfw
-        split at h
-        · split at h <;> simp [Ev.reachedService] at h
-        · rename_i hs
-          have hs' : f.svc ≠ 0 := by simpa using hs
-          refine ⟨?_, by simpa using hc, hs'⟩
-          cases ha : c.auth with
-          | true => rfl
-          | false => simp [ha, hs'] at hfw
+      · split at h
+        · cases h
+        · rename_i hfw
+          split at h
+          · split at h <;> simp [Ev.reachedService] at h
+          · rename_i hs
+            have hs' : f.svc ≠ 0 := by simpa using hs
+            refine ⟨?_, by simpa using hc, hs'⟩
+            cases ha : c.auth with
+            | true => rfl
+            | false => simp [ha, hs'] at hfw
 
 theorem authOutcome_done (acc : Authenticator) (f : Frame) (h : authOutcome acc f = .authReply 3) :
     f.act = authenticateAction ∧ accepted acc f.payload = true := by
@@ -106,13 +110,17 @@ theorem inv_recv (cfg : Cfg) (s : Srv) (k : Nat) (f : Frame) (hi : Inv cfg s) : 
       · exact h
       · rw [List.getElem?_eq_none h] at hk; cases hk
     simp only
-    generalize hc1 : (if (classify cfg c f == .dead || classify cfg c f == .ignored) = true then c
-        else { c with received := c.received ++ [f], closed := classify cfg c f == .refusedClosed }) = c1
-    have hauth : c1.auth = c.auth := by rw [← hc1]; split <;> rfl
+    generalize hc1 : connAfter c f (classify cfg c f) = c1
+    have hauth : c1.auth = c.auth := by
+      rw [← hc1]; unfold connAfter; split
+      · rfl
+      · split <;> rfl
     have hsub : ∀ x ∈ c.received, x ∈ c1.received := by
-      intro x hx; rw [← hc1]; split
+      intro x hx; rw [← hc1]; unfold connAfter; split
       · exact hx
-      · exact List.mem_append_left _ hx
+      · split
+        · exact hx
+        · exact List.mem_append_left _ hx
     refine ⟨?_, ?_⟩
     · intro j cj hj ha
       by_cases hjk : k = j
@@ -139,7 +147,7 @@ theorem inv_recv (cfg : Cfg) (s : Srv) (k : Nat) (f : Frame) (hi : Inv cfg s) : 
         · simp at hp; subst hp
           have hq' : classify cfg c f = .queued := by simpa using hq
           refine ⟨c1, List.getElem?_set_self hlt, ?_, classify_queued cfg c f hq'⟩
-          rw [← hc1, hq']; simp
+          rw [← hc1, hq']; simp [connAfter]
       · exact old hp
 
 theorem setConn_get (cs : List Conn) (k j : Nat) (g : Conn → Conn) (cj : Conn) (h : (setConn cs k g)[j]? = some cj) :
@@ -228,12 +236,17 @@ theorem gate (cfg : Cfg) (as : List Action) (k : Nat) (c : Conn) (f : Frame)
 /-- a frame for another service on a connection that has not authenticated is answered with the
     error and the connection is closed; whatever follows on that connection is not read -/
 theorem refused_and_closed (cfg : Cfg) (c : Conn) (f : Frame) (ha : c.auth = false) (hc : c.closed = false)
-    (ht : ignoredType f.typ = false) (hs : f.svc ≠ 0) :
+    (hb : badType f.typ = false) (ht : ignoredType f.typ = false) (hs : f.svc ≠ 0) :
     classify cfg c f = .refusedClosed ∧
     ∀ g, classify cfg { c with received := c.received ++ [f], closed := true } g = .dead := by
   constructor
-  · simp [classify, ha, hc, ht, hs]
+  · simp [classify, ha, hc, hb, ht, hs]
   · intro g; simp [classify]
+
+/-- a type byte that is not a message type closes the connection, whatever its state -/
+theorem bad_type_closes (cfg : Cfg) (c : Conn) (f : Frame) (hc : c.closed = false) (hb : badType f.typ = true) :
+    classify cfg c f = .badFrame ∧ (connAfter c f .badFrame).closed = true ∧ (connAfter c f .badFrame).auth = c.auth := by
+  refine ⟨by simp [classify, hc, hb], by simp [connAfter], by simp [connAfter]⟩
 
 /-- no message type substitutes for authentication: whatever the type byte, the classification
     of a frame for another service on an unauthenticated connection is `refusedClosed` or `ignored` -/
